@@ -25,7 +25,7 @@ PLACEMENTS = ("none", "error_handler", "format_exceptions", "render_context", "i
 # handlers declining, and raises that are not an Exception (SystemExit-like): a sample of the raise points
 SAMPLED_PLACEMENTS = {"error_handler_false": 12, "include_handler_false": 12, "none_base": 6, "error_handler_false_base": 8,
                       "error_handler_base": 6, "include_handler_inc_only": 10, "include_handler_main_only": 10}
-IMPORT = "<%! from vsim.c13rt import p, S, flt, dec, it, Boom %>"
+IMPORT = "<%! from vsim.c13rt import p, S, flt, dec, it, Boom, sc %>"
 
 RULE = ("one case = one generated template program (top-level defs that are plain / buffered / filtered / cached / decorated / "
         "taking an argument / caller-aware, nested defs, calls by name / self. / capture(), <%call> with content, % for over "
@@ -118,6 +118,8 @@ class Gen:
                     out.append({"t": "call", "d": d["name"], "via": "ns", "arg": self.cid() if d.get("arg") else None})
             elif x < 0.05:
                 out.append({"t": "callerflag"})
+            elif x < 0.08:
+                out.append({"t": "sc", "i": self.cid()})
             elif x < 0.16:
                 out.append({"t": "text", "s": r.choice("abcdefgh") + str(r.randint(0, 9))})
             elif x < 0.34:
@@ -262,6 +264,8 @@ def emit_node(n):
         return "${caller.body()}"
     if t == "callerflag":
         return "${'C1' if caller else 'C0'}"
+    if t == "sc":
+        return "${sc(context, %d)}" % n["i"]
     if t == "textf":
         return '<%%text filter="flt(%d)">%s</%%text>' % (n["i"], n["s"])
     if t == "for":
